@@ -199,7 +199,8 @@ def run_unit(ck, unit):
     groups = {}
     for opts, ds in displays.items():
         pass
-    tr = TreeRunner(ck, Bounds(str_cap=3, arr_cap=1 if quick else 2, depth=2))
+    wide = name.split('/')[0] in ('nested', 'shake', 'matrix', 'c12')
+    tr = TreeRunner(ck, Bounds(str_cap=3, arr_cap=2 if (wide or not quick) else 1, depth=2))
     tr.uni.numstr_cap = 2
     evald = {}
     try:
